@@ -24,7 +24,7 @@ ASSUMPTIONS = ['expiry is the only disqualifying key condition reachable through
 KEYS = [('rsa1024-0', 'RSA', 'weak'), ('rsa2048-2', 'RSA', 'strong'), ('dsa1024-0', 'DSA', 'weak'), ('dsa2048-1', 'DSA', 'strong'),
         ('ecdsa-p256-0', 'EC', 'weak'), ('ed25519-0', 'EC', 'strong')]
 HASHES = [8, 2, 1]
-SUBJECTS = ['doc', 'self-uid', 'third-uid', 'whole-key', 'message', 'doc-by-subkey', 'doc-noise', 'doc-zero-expiry', 'doc-old-long', 'doc-by-expired-subkey']
+SUBJECTS = ['doc', 'self-uid', 'third-uid', 'whole-key', 'message', 'doc-by-subkey', 'doc-noise', 'doc-zero-expiry', 'doc-old-long', 'doc-by-expired-subkey', 'doc-direct-expiry']
 
 
 def w_algebra(arg):
@@ -79,6 +79,15 @@ def build_cert(kid, expired, revoked, halg, secret=False, noise=False):
         noise = False
     blob = keypool.ref_cert(kid, uids=('Verdict Key <verdict@example.org>', 'Second <second@example.org>'), subkeys=(('cv25519-0', 0x0C), ('ed25519-1', 0x02)),
                             secret=secret, halg=halg, uid_extra=extra)
+    if noise == 'direct':
+        # the key states its validity period (one day) in a direct-key self-signature (RFC 4880 5.2.3.3: the place for information about
+        # the key itself; what key.certify(key, key_expiration=...) writes); the self-certifications of the user ids say nothing about expiry
+        psec = keypool.ref_secret(kid)
+        pk = wire.split_packets(keypool.ref_cert(kid, uids=('Verdict Key <verdict@example.org>', 'Second <second@example.org>'),
+                                                 subkeys=(('cv25519-0', 0x0C), ('ed25519-1', 0x02)), secret=secret, halg=halg))
+        direct = rsig.sign(psec, 0x1F, halg, ('key', psec.pub), keypool.std_hashed(psec.pub.created + 50, psec.pub.fingerprint, keypool.sp(9, wire.u32(86400)) + keypool.sp(27, b'\x03')),
+                           keypool.sp(16, psec.pub.keyid))
+        return pk[0].raw + wire.build_packet(2, direct) + b''.join(p.raw for p in pk[1:])
     if noise in ('old-long', 'sub-expired'):
         # 'old-long': the first user id's (newer) self-signature limits the key to one day, an OLDER self-signature on the second user id said 100 years;
         # 'sub-expired': the key itself never expires, the binding signature of the signing subkey limits that subkey to one day
@@ -140,10 +149,10 @@ def scenario(rec, kid, fam, strength, expired, revoked, halg, subject, wrong):
     case = {'kind': 'scn', 'kid': kid, 'expired': expired, 'revoked': revoked, 'halg': halg, 'subject': subject, 'wrong': wrong}
     psec = keypool.ref_secret(kid)
     ppub = psec.pub
-    cert = build_cert(kid, expired, revoked, halg, noise=(subject == 'doc-noise') or {'doc-zero-expiry': 'zero', 'doc-old-long': 'old-long', 'doc-by-expired-subkey': 'sub-expired'}.get(subject, False))
+    cert = build_cert(kid, expired, revoked, halg, noise=(subject == 'doc-noise') or {'doc-zero-expiry': 'zero', 'doc-old-long': 'old-long', 'doc-by-expired-subkey': 'sub-expired', 'doc-direct-expiry': 'direct'}.get(subject, False))
     if subject == 'doc-zero-expiry':
         expired = False
-    if subject in ('doc-old-long', 'doc-by-expired-subkey'):
+    if subject in ('doc-old-long', 'doc-by-expired-subkey', 'doc-direct-expiry'):
         if revoked or not expired:
             return          # one scenario per key and hash is enough: the certificate is built expired by construction
         expired = True
@@ -157,7 +166,7 @@ def scenario(rec, kid, fam, strength, expired, revoked, halg, subject, wrong):
             if wrong == 0:
                 body = corrupt(body)
             res = ver.verify(b'verdict coherence', pgpy.PGPSignature.from_blob(wire.build_packet(2, body)))
-        elif subject in ('doc', 'doc-noise', 'doc-zero-expiry', 'doc-old-long'):
+        elif subject in ('doc', 'doc-noise', 'doc-zero-expiry', 'doc-old-long', 'doc-direct-expiry'):
             body = rsig.sign(psec, 0x00, halg, ('doc', b'verdict coherence'), keypool.std_hashed(1600000000, ppub.fingerprint), keypool.sp(16, ppub.keyid))
             if wrong == 0:
                 body = corrupt(body)
